@@ -539,6 +539,79 @@ def g8(prog: Program, chk: Check) -> None:
             "" if timed >= 30 else "fewer time parameters than confirmed by hand")
 
 
+def restart_resets(prog: Program, chk: Check, rule: str, records: bool = True,
+                   state: bool = True) -> None:
+    chk.rule(rule, "a front end that can be started again (a public initialize() that sets the step "
+             "counter back) starts all of its run state again: every attribute the stepping appends "
+             "to (lists / dicts of times, states, norms) or assigns (counters, 'already applied' "
+             "flags) is re-created by initialize() or by a method it calls - otherwise the second "
+             "run appends to the first one's records, or skips what the flag says was done", floor=1)
+    n = 0
+    for m_ in ("tempo", "pt_tempo", "pt_tebd"):
+        for ci in [c for c in prog.classes.values() if c.module.short == m_]:
+            init = ci.methods.get("initialize")
+            if init is None:
+                continue
+            sets_step = any(isinstance(st, ast.Assign) and any(dotted(t) == "self._step" for t in st.targets)
+                            for st in walk_local(init.node))
+            if not sets_step:
+                continue
+
+            def callees(mu, seen):
+                out = [mu]
+                for c in walk_local(mu.node):
+                    mc = method_call(c) if isinstance(c, ast.Call) else None
+                    if mc and mc[0] == "self" and mc[1] in ci.methods and mc[1] not in seen:
+                        seen.add(mc[1])
+                        out += callees(ci.methods[mc[1]], seen)
+                return out
+            stepping = []
+            for name in ("compute", "compute_step"):
+                if name in ci.methods:
+                    stepping += callees(ci.methods[name], {name, "initialize"})
+            acc = {}
+            for mu in (stepping if records else []):
+                for c in walk_local(mu.node):
+                    if isinstance(c, ast.Call) and isinstance(c.func, ast.Attribute) \
+                            and c.func.attr in ("append", "extend", "add", "insert"):
+                        base = c.func.value
+                        while isinstance(base, ast.Subscript):
+                            base = base.value
+                        if isinstance(base, ast.Attribute) and isinstance(base.value, ast.Name) \
+                                and base.value.id == "self":
+                            acc.setdefault(base.attr, (mu, c))
+            # ... and every attribute the stepping assigns (counters, "already done" flags)
+            for mu in (stepping if state else []):
+                for st in walk_local(mu.node):
+                    tgts = st.targets if isinstance(st, ast.Assign) else \
+                        ([st.target] if isinstance(st, ast.AugAssign) else [])
+                    for t in tgts:
+                        if isinstance(t, ast.Attribute) and isinstance(t.value, ast.Name) \
+                                and t.value.id == "self":
+                            acc.setdefault(t.attr, (mu, st))
+            resetting = callees(init, {"initialize"})
+            reset = {t.attr for mu in resetting for st in walk_local(mu.node) if isinstance(st, ast.Assign)
+                     for t in st.targets if isinstance(t, ast.Attribute) and isinstance(t.value, ast.Name)
+                     and t.value.id == "self"}
+            chk.saw(init)
+            for attr, (mu, c) in sorted(acc.items()):
+                n += 1
+                ok = attr in reset
+                chk.add(rule, init, f"{ci.name}.initialize() re-creates self.{attr} "
+                        f"(changed in {mu.name})", ok,
+                        "" if ok else f"self.{attr} keeps its value from the previous run: after "
+                        f"initialize() the next compute() starts from the records / flags of the "
+                        f"run before", c)
+    if n < 1:
+        raise AnalysisError(f"{rule}: no restartable front end with accumulated records found "
+                            f"(PtTebd confirmed by hand)")
+
+
+def g9(prog: Program, chk: Check) -> None:
+    # C13 is about the recorded grid: the records (and nothing else) are judged here
+    restart_resets(prog, chk, "G9", records=True, state=False)
+
+
 def run(prog: Program, chk: Check) -> None:
     chk.explanation = (
         "Decides how floats become step counts and the polynomial form of every time label: "
@@ -558,3 +631,4 @@ def run(prog: Program, chk: Check) -> None:
     chk.call(g6, prog, chk)
     chk.call(g7, prog, chk)
     chk.call(g8, prog, chk)
+    chk.call(g9, prog, chk)
